@@ -19,7 +19,7 @@ CODE = {np.dtype(v).name: k for k, v in NP_DTYPE.items()}
 EXC = (ValueError, TypeError, IndexError, KeyError, RuntimeError, AttributeError, ZeroDivisionError, OverflowError,
        NotImplementedError, AssertionError)
 REFUSALS = {"NewRefused", "AddRefused", "IAddRefused", "ForeignRefused", "ISubRefused", "NegRefused", "DivZeroRefused", "SetDtypeRefused",
-            "FillNRefused", "MergeRefused"}
+            "FillNRefused", "MergeRefused", "MergeFracRefused", "IndexRefused"}
 
 
 def fmap(v):
@@ -220,9 +220,53 @@ class PoolAdapter(Adapter):
                 i, a, inplace, k = args
                 r = o[i].merge_bins(a, inplace=inplace)
                 o[k] = r
+            elif action == "MergeRefused":
+                i, a, inplace = args
+                obs["ret"] = o[i].merge_bins(a, inplace=inplace)
+            elif action == "MergeFracRefused":
+                i, inplace = args
+                obs["ret"] = o[i].merge_bins(2.5, inplace=inplace)
+            elif action == "MergeMinFreq":
+                i, t, inplace, k = args
+                den = fmap(pre["pool"])[i]["den"]
+                r = o[i].merge_bins(min_frequency=t / den if den != 1 else t, inplace=inplace)
+                o[k] = r
             elif action == "Slice":
                 i, a, b, k = args
                 o[k] = o[i][slice(None if a == NONE_IX else a, None if b == NONE_IX else b)]
+            elif action == "GetBin":
+                i, ix, lo, hi, num = args
+                obs["ret"] = o[i][int(ix)]
+            elif action == "Take":
+                i, idx, how, k = args
+                n = o[i].bin_count
+                if how == "mask":
+                    m = np.zeros(n, dtype=bool)
+                    m[list(idx)] = True
+                    o[k] = o[i][m]
+                elif how == "array":
+                    o[k] = o[i][np.array(idx, dtype=int)]
+                else:
+                    o[k] = o[i][list(idx)]
+            elif action == "TakeUnsorted":
+                i, idx, k = args
+                o[k] = o[i][np.array(idx, dtype=int)] if self.spelling % 2 else o[i][list(idx)]
+            elif action == "IndexRefused":
+                i, what = args
+                h = o[i]
+                n = h.bin_count
+                if what == "neg_step":
+                    obs["ret"] = h[::-1]
+                elif what == "mask_short":
+                    obs["ret"] = h[np.ones(n - 1, dtype=bool)] if n > 1 else h[np.ones(n + 2, dtype=bool)]
+                elif what == "mask_long":
+                    obs["ret"] = h[np.ones(n + 1, dtype=bool)]
+                elif what == "int_high":
+                    obs["ret"] = h[n]
+                elif what == "int_low":
+                    obs["ret"] = h[-n - 1]
+                elif what == "array_high":
+                    obs["ret"] = h[np.array([0, n])]
             elif action == "Drop":
                 (k,) = args
                 del o[k]
@@ -344,6 +388,18 @@ class PoolAdapter(Adapter):
                 det["refused"] = {"expected": "an exception", "observed": "call accepted"}
         elif obs["exc"] is not None:
             return Mismatch(["accepted"], {"raised": obs["exc"]})
+        if action == "GetBin" and "ret" in view and obs["exc"] is None:
+            i, ix, lo, hi, num = args
+            rec = fmap(pre["pool"])[i]
+            try:
+                edges, content = obs["ret"]
+                ok = (float(edges[0]) == self.pe.x(lo) and float(edges[1]) == self.pe.x(hi)
+                      and self._cmp_val(content, num, rec["den"], False, rec.get("prec", 0)))
+            except Exception:
+                ok = False
+            if not ok:
+                bad.append("ret")
+                det["ret"] = {"expected": ([self.pe.x(lo), self.pe.x(hi)], f"{num}/{rec['den']}"), "observed": repr(obs["ret"])}
         pool = fmap(post["pool"])
         live = {i for i, r in pool.items() if "null" not in r}
         if set(real.keys()) != live:
@@ -429,6 +485,20 @@ class PoolAdapter(Adapter):
             return f"{action}/{kind(args[0])}/{args[1]}"
         if action == "Merge":
             return f"Merge/{kind(args[0])}/{args[1]}/{'inplace' if args[2] else 'copy'}"
+        if action == "MergeRefused":
+            return f"MergeRefused/{kind(args[0])}/{args[1]}/{'inplace' if args[2] else 'copy'}"
+        if action == "MergeFracRefused":
+            return f"MergeFracRefused/{kind(args[0])}/{'inplace' if args[1] else 'copy'}"
+        if action == "MergeMinFreq":
+            return f"MergeMinFreq/{kind(args[0])}/{args[1]}/{'inplace' if args[2] else 'copy'}"
+        if action == "GetBin":
+            return f"GetBin/{kind(args[0])}/{args[1]}"
+        if action == "Take":
+            return f"Take/{kind(args[0])}/{args[2]}/{'-'.join(str(x) for x in args[1])}"
+        if action == "TakeUnsorted":
+            return f"TakeUnsorted/{kind(args[0])}/{'-'.join(str(x) for x in args[1])}"
+        if action == "IndexRefused":
+            return f"IndexRefused/{args[1]}/{kind(args[0])}"
         if action == "Slice":
             return f"Slice/{kind(args[0])}/{args[1]}:{args[2]}"
         if action == "NewRefused":
